@@ -40,6 +40,16 @@ func requestTypes(c *Ctx, pkgRel string) map[*types.Named]bool {
 }
 
 func checkC01(c *Ctx, r *Report) {
+	// R1.7: a request stays what its constructor built: no method declared on a request type (or on
+	// a struct it embeds) stores through its receiver or writes the request's own data, so that
+	// encoding after any other method call (a String() run by fmt, an accessor) still gives the
+	// frame of the constructor's arguments
+	{
+		reqs := requestTypes(c, "packet")
+		fam := packetFamily(c, "packet", func(tn *types.Named) bool { return reqs[tn] })
+		r.instance("R1.7", packetValuesImmutable(c, r, "R1.7", "packet", fam, nil))
+		r.floor("R1.7", 40)
+	}
 	r.floor("R1.1", 20)
 	r.floor("R1.2", 20)
 	r.floor("R1.3", 20)
